@@ -279,8 +279,11 @@ def _debug_stmt(F, st):
 COMMUTATIVE = {"+", "*", "&", "|", "^", "min", "max", "==", "!=", "&&", "||"}
 
 
+POW2_DEFS = set()      # constants of the crate whose value is a power of two (filled when the facts are loaded)
+
+
 def _pow2_def(t):
-    return t[0] == "def" and t[1].endswith("BITS")
+    return t[0] == "def" and (t[1].endswith("BITS") or t[1] in POW2_DEFS)
 
 
 def mk_op(op, l, r):
@@ -293,6 +296,11 @@ def mk_op(op, l, r):
             if b_[0] == "op" and b_[1] == "-" and len(b_) == 4 and _pow2_def(b_[2]) and b_[3] == ("int", 1):
                 return mk_op("%", a_, b_[2])
 
+    if op == "*":
+        # `x * (1 << k)` is `x << k`
+        for a_, b_ in ((l, r), (r, l)):
+            if b_[0] == "op" and len(b_) == 4 and b_[1] == "<<" and b_[2] == ("int", 1) and not (a_[0] == "op" and len(a_) == 4 and a_[1] == "<<" and a_[2] == ("int", 1)):
+                return mk_op("<<", a_, b_[3])
     z = ("int", 0)
     if op in ("+", "|", "^") and l == z:
         return r
@@ -1120,11 +1128,21 @@ class Walker:
             return self.walk_loop(n, K)
         if k == "Match":
             return self.walk_match(n, K)
+        if k == "MethodCall":
+            self._closure_context(n, K)
         if k == "Closure":
             K2 = K.copy()
             saved = dict(self.T.env)
             for p in n.get("params", []):
                 self.bind_pat_opaque(p)
+            ctx_ = getattr(self, "_cl_ctx", {}).pop(id(n), None)
+            if ctx_:
+                # what is known about the closure's parameters / when it runs (see _closure_context)
+                for pid, nm, lo, hi in ctx_.get("ranges", []):
+                    v = ("var", nm, pid)
+                    self.T.env.pop(pid, None)
+                    K2.add([atom_le(lo, v), atom_le(v, hi, True)])
+                K2.add(ctx_.get("atoms", []))
             self.closure_depth += 1
             self.walk(n["body"], K2)
             self.closure_depth -= 1
@@ -1338,12 +1356,55 @@ class Walker:
                     if lid in self.T.env:
                         self.havoc_local(lid, nm)
         else:
-            for lid, nm in assigned.items():
-                if lid in self.T.env:
-                    self.havoc_local(lid, nm)
+            # `loop { if c { break } .. }` with that single exit as its first statement is `while !c { .. }`
+            first = None
+            for st_ in body.get("stmts", []) + ([body["expr"]] if "expr" in body else []):
+                if _debug_stmt(F, st_):
+                    continue
+                first = st_
+                break
+            if n.get("src") == "Loop" and nbreaks == 1 and first is not None and first.get("k") == "If" and first["c"].get("k") != "Let" and "el" not in first \
+                    and self._is_plain_break(first["th"]):
+                K.add(cond_atoms(self.T, first["c"], True))
+            else:
+                for lid, nm in assigned.items():
+                    if lid in self.T.env:
+                        self.havoc_local(lid, nm)
         if n.get("src") == "Loop" and nbreaks == 0:
             return True
         return False
+
+    def _closure_context(self, n, K):
+        """Facts that hold inside a closure argument because of the method it is passed to:
+        `cond.then(|| ..)` runs the closure only when cond holds; `(lo..hi).map(|i| ..)` (for_each, filter, all, any,
+        find, fold ..) calls it with lo <= i < hi."""
+        F = self.F
+        clos = [a for a in n.get("args", []) if a.get("k") == "Closure"]
+        if not clos:
+            return
+        if not hasattr(self, "_cl_ctx"):
+            self._cl_ctx = {}
+        nm = n.get("name")
+        if nm in ("then",) and F.ty(n["recv"]).replace("&", "").strip() == "bool":
+            self._cl_ctx[id(clos[0])] = {"atoms": cond_atoms(self.T, n["recv"], True)}
+            return
+        if nm in ("map", "for_each", "filter", "all", "any", "find", "position", "filter_map", "flat_map", "take_while", "skip_while", "try_for_each", "map_while", "find_map", "inspect"):
+            r = n["recv"]
+            while r.get("k") == "MethodCall" and r.get("name") in ("rev", "into_iter", "by_ref", "iter"):
+                r = r["recv"]
+            while r.get("k") == "Block" and not r.get("stmts") and "expr" in r:
+                r = r["expr"]
+            rng = range_of(F, r) if r.get("k") == "Struct" else None
+            if rng and rng[0] is not None and rng[1] is not None and not rng[2]:
+                c = clos[0]
+                ps = c.get("params", [])
+                if len(ps) == 1 and ps[0].get("k") == "PBind":
+                    self._cl_ctx[id(c)] = {"ranges": [(ps[0]["id"], ps[0]["name"], self.T.term(rng[0]), self.T.term(rng[1]))]}
+
+    def _is_plain_break(self, br):
+        while br.get("k") == "Block" and len(br.get("stmts", [])) + (1 if "expr" in br else 0) == 1:
+            br = br["expr"] if "expr" in br else br["stmts"][0]
+        return br.get("k") == "Break" and "e" not in br
 
     def _only_incremented(self, body, lids):
         """Locals among lids whose every assignment in body is `x += <literal >= 0>` (and that are not borrowed mutably)."""
